@@ -15,7 +15,7 @@ PROPS['C02'] = dict(
                     defs=dict(quick=['-DMAXN=5', '-DMAXO=3', '-DHISTN=3'], thorough=['-DMAXN=6', '-DMAXO=5', '-DHISTN=4']),
                     functions=['Spline::operator()', 'Spline::findInterval', 'Spline::front', 'Spline::back', 'Support::begin', 'Support::end', 'Support::front',
                                'Support::back', 'Support::size', 'Support::operator[]', 'Grid::operator[]', 'internal::evaluateInterval', 'std::lower_bound (libstdc++)'])],
-    bounds=dict(quick='grids of 2..5 symbolic points, every window (empty, point-like, all s<e<=n), orders 0..3, symbolic coefficients and abscissa; plus evaluation of objects with a history (earlier evaluation at an independent symbolic x1, then copy/move/lower-order assignment, += or move-out-and-reassign from every other window) on grids of 2..3 points; plus orders 6, 8, 10, 20 on FIXED irregular rational grids of 2..4 points (x and coefficients symbolic)',
+    bounds=dict(quick='grids of 2..5 symbolic points, every window (empty, point-like, all s<e<=n), orders 0..3, symbolic coefficients and abscissa; plus evaluation of objects with a history (earlier evaluation at an independent symbolic x1, then copy/move/lower-order assignment, += or move-out-and-reassign from every other window) on grids of 2..3 points; plus orders 6, 8, 10, 20 on FIXED irregular rational grids of 2..4 points (x and coefficients symbolic); plus EVERY window of a 17-point FIXED rational grid at order 1 (16 sampled windows at order 3), objects with a history on sampled window pairs of that grid, and orders 7, 9, 11, 12, 13, 16 on 2..4-point fixed grids',
                 thorough='grids of 2..6 symbolic points, every window, orders 0..5'),
     outside='orders/grids above the bound; NaN abscissa; floating-point rounding (C16)',
     assumptions=['grid points strictly increasing reals', 'exact real arithmetic (sym::Real), not IEEE'],
@@ -38,7 +38,7 @@ PROPS['C03'] = dict(
                                'Spline::operator+=', 'Spline::operator-=', 'Spline::operator*=', 'Spline::operator/=', 'Spline::operator=(lower order)', 'operator*(T,Spline)',
                                'linearCombination (iterator and collection overloads)', 'internal::add', 'internal::changearraysize', 'internal::make_array',
                                'Support::calcUnion', 'Support::calcIntersection', 'Support::intervalIndexFromAbsolute', 'Support::absoluteFromRelative', 'Spline::Spline (validation)'])],
-    bounds=dict(quick='grids of 2..5 symbolic points; every ordered pair of windows (empty, point-like, nested, overlapping, touching, gap); order pairs {0,1,2}^2; in-place forms from an arbitrary prior state and sequences of up to 4 updates; the same object on both sides (t -= t, t += t, a*a, ...); integer-typed scalar arguments with an implicitly converting scalar type; linearCombination of 2 and 3 splines (all window triples on grids <=4, third spline at every position), symbolic scalars; plus order pairs {4,6,9,10}^2 on FIXED irregular rational grids of 2..3 points (coefficients, scalars, x symbolic)',
+    bounds=dict(quick='grids of 2..5 symbolic points; every ordered pair of windows (empty, point-like, nested, overlapping, touching, gap); order pairs {0,1,2}^2; in-place forms from an arbitrary prior state and sequences of up to 4 updates; the same object on both sides (t -= t, t += t, a*a, ...); integer-typed scalar arguments with an implicitly converting scalar type; linearCombination of 2 and 3 splines (all window triples on grids <=4, third spline at every position), symbolic scalars; plus order pairs {4,6,9,10}^2 on FIXED irregular rational grids of 2..3 points (coefficients, scalars, x symbolic); plus sampled window pairs (8x8 per order pair (1,1), (2,1), (0,2)) of a 17-point FIXED rational grid, scalar and aliasing forms on every window of it, linearCombination of 4..9 splines (with a repeated member)',
                 thorough='grids of 2..6 points, order pairs {0..3}^2, linearCombination on grids <=5'),
     outside='orders/grids above the bound; collections of more than 3 splines; floating-point rounding (C16)',
     assumptions=['grid points strictly increasing reals', 'scalar divisor non-zero', 'exact real arithmetic (sym::Real), not IEEE'],
@@ -58,7 +58,7 @@ PROPS['C04'] = dict(
                     defs=dict(quick=['-DMAXN=4', '-DMAXO=4', '-DMAXD=6'], thorough=['-DMAXN=5', '-DMAXO=5', '-DMAXD=6']),
                     functions=['Derivative<n>::transform', 'Position<n>::transform', 'Position<n>::expandPower', 'IdentityOperator::transform', 'operators::transformSpline',
                                'operator*(Operator,Spline)', 'internal::faculty', 'internal::facultyRatio', 'internal::binomialCoefficient', 'Spline::operator=='])],
-    bounds=dict(quick='n = 0..6 for Dx<n>/X<n>, spline orders 0..4 (35 template pairs incl. n = order and n > order), every window of grids with 2..4 symbolic points (arbitrary spacing and distance from the origin); the same operator objects applied alternately on two independent symbolic grids (n <= 3, order <= 2); plus 100 sparse high pairs (n, order) in {0,1,3,5,8,13,20,21,22,25}^2 on the fixed rational interval [-3/2, 5/7] with symbolic coefficients and x (where factorials/binomials exceed 64-bit integers)',
+    bounds=dict(quick='n = 0..6 for Dx<n>/X<n>, spline orders 0..4 (35 template pairs incl. n = order and n > order), every window of grids with 2..4 symbolic points (arbitrary spacing and distance from the origin); the same operator objects applied alternately on two independent symbolic grids (n <= 3, order <= 2); plus 100 sparse high pairs (n, order) in {0,1,3,5,8,13,20,21,22,25}^2 on the fixed rational interval [-3/2, 5/7] with symbolic coefficients and x (where factorials/binomials exceed 64-bit integers); plus every window of a 17-point FIXED rational grid for (n, order) in {(1,1),(2,3),(3,2),(1,0)}, every n = 0..4 with order = 4..12 on a fixed interval, and one spline object re-assigned between two grids',
                 thorough='n = 0..6, orders 0..5, grids of 2..5 points'),
     outside='n and orders above the bound; floating-point rounding (C16)',
     assumptions=['grid points strictly increasing reals', 'exact real arithmetic (sym::Real), not IEEE'],
@@ -73,7 +73,7 @@ PROPS['C05'] = dict(
         functions=['OperatorProduct::transform', 'OperatorSum::transform/add', 'ScalarMultiplication::transform', 'operator*(O1,O2)', 'operator+(O1,O2)', 'operator-(O1,O2)',
                    'operator*(S,O)', 'operator*(O,S)', 'operator/(O,S)', 'operator+(O,S)', 'operator+(S,O)', 'operator-(O,S)', 'operator-(S,O)', 'operator-(O)',
                    'SplineOperator::transform', 'Derivative::transform', 'Position::transform', 'IdentityOperator::transform', 'transformSpline']))],
-    bounds=dict(quick='expression trees: 10 named (commutator, hydrogen-like, generator, ...) + all 198 trees with one composite node over the leaves {I, X<1>, X<2>, Dx<1>, Dx<2>, SplineOperator(v)} with scalars of type T (symbolic) and int (literals, incl. int divisors) + 84 one-level trees with scalars of type unsigned, size_t, long, short + all 315 nestings of two builder functions (unary over unary, binary over a unary child on either side) + 160 seed-selected further trees with two composite nodes; operand orders 0..2; factor order 1; every operand window x every factor window on grids of 2..4 symbolic points',
+    bounds=dict(quick='expression trees: 10 named (commutator, hydrogen-like, generator, ...) + all 198 trees with one composite node over the leaves {I, X<1>, X<2>, Dx<1>, Dx<2>, SplineOperator(v)} with scalars of type T (symbolic) and int (literals, incl. int divisors) + 84 one-level trees with scalars of type unsigned, size_t, long, short + all 315 nestings of two builder functions (unary over unary, binary over a unary child on either side) + 160 seed-selected further trees with two composite nodes; operand orders 0..2; factor order 1; every operand window x every factor window on grids of 2..4 symbolic points; every operator is built from named scalar/spline objects that are overwritten before the operator is applied',
                 thorough='all 2808 two-level trees of the generator, operand orders 0..3, factor orders 1 and 2, grids of 2..5 points'),
     outside='deeper trees than two composite nodes above the leaves; X<n>/Dx<n> with n>2 inside expressions (covered alone by C04); lvalue operator operands (do not compile); scalar types other than T, int, unsigned, size_t, long, short',
     assumptions=['grid points strictly increasing reals', 'T-typed divisor non-zero', 'exact real arithmetic (sym::Real), not IEEE'],
@@ -95,7 +95,7 @@ PROPS['C06'] = dict(
                dict(mode='c06lg', ntu=4, template=dict(
         defs=dict(quick=['-DFIXED_GRID', '-DLARGE=17', '-DFO=1'], thorough=['-DFIXED_GRID', '-DLARGE=20', '-DNSAMPLE=14', '-DFO=1']), chunk=1,
         functions=['BilinearForm on sampled window pairs of a 17-point (thorough: 20-point) fixed rational grid, order pairs (1,1), (2,1), (0,3)']))],
-    bounds=dict(quick='14 operator pairs over {I, Dx<1>, Dx<2>, X<1>, X<2>, SplineOperator(v), X<2>Dx<1>+c X<1>-3, -Dx<2>/2, v*Dx<1>, c-X<1>} (position-dependent operators in both slots); order pairs {0..3}^2 (all four size parities of the kernel); every ordered window pair on grids of 2..4 symbolic points; factor windows {whole, empty, [0,2), [1,n)}; operands with a history (a queried zero object re-assigned by lower-order assignment / += / copy and *=); plus order pairs {5,6,7,8,10}^2 for 4 operator pairs on FIXED irregular rational grids of 2..3 points (coefficients symbolic) - the kernel sizes the examples use',
+    bounds=dict(quick='14 operator pairs over {I, Dx<1>, Dx<2>, X<1>, X<2>, SplineOperator(v), X<2>Dx<1>+c X<1>-3, -Dx<2>/2, v*Dx<1>, c-X<1>} (position-dependent operators in both slots); order pairs {0..3}^2 (all four size parities of the kernel); every ordered window pair on grids of 2..4 symbolic points; factor windows {whole, empty, [0,2), [1,n)}; operands with a history (a queried zero object re-assigned by lower-order assignment / += / copy and *=); plus order pairs {5,6,7,8,10}^2 for 4 operator pairs on FIXED irregular rational grids of 2..3 points (coefficients symbolic) - the kernel sizes the examples use; plus sampled window pairs of a 17-point FIXED rational grid (6 operator pairs incl. SplineOperator in either slot, order pairs (1,1), (2,1), (0,3)), kernels with 22..35 product coefficients (order pairs (11,11), (12,12), (13,11), (9,16), (16,16)), and the same spline object in both slots with operators of one type that differ in state',
                 thorough='68 operator pairs, order pairs {0..4}^2, grids of 2..5 points, every factor window; high-order part: 10 operator pairs, grids of 2..4 points'),
     outside='operator pairs and orders beyond the bound; floating-point rounding (C16)',
     assumptions=['grid points strictly increasing reals', 'T-typed divisor non-zero', 'exact real arithmetic (sym::Real), not IEEE'],
@@ -113,7 +113,7 @@ PROPS['C07'] = dict(
                dict(mode='c07lg', ntu=4, template=dict(
         defs=dict(quick=['-DFIXED_GRID', '-DLARGE=17', '-DFO=1'], thorough=['-DFIXED_GRID', '-DLARGE=20', '-DNSAMPLE=14', '-DFO=1']), chunk=1,
         functions=['LinearForm on every window of a 17-point (thorough: 20-point) fixed rational grid, orders 1 and 2; link to the bilinear form on sampled window pairs']))],
-    bounds=dict(quick='linear forms of 10 operators on splines of order 0..4 (both parities of the kernel), every window and every factor window on grids of 2..4 symbolic points; bilinear = LinearForm{}((O1 a)*(O2 b)) for 14 operator pairs, order pairs {0..3}^2, every ordered window pair; plus orders 5..11 (linear forms) and order pairs (6,5), (7,8) (link) on a FIXED irregular rational 3-point grid with symbolic coefficients',
+    bounds=dict(quick='linear forms of 10 operators on splines of order 0..4 (both parities of the kernel), every window and every factor window on grids of 2..4 symbolic points; bilinear = LinearForm{}((O1 a)*(O2 b)) for 14 operator pairs, order pairs {0..3}^2, every ordered window pair; plus orders 5..11 (linear forms) and order pairs (6,5), (7,8) (link) on a FIXED irregular rational 3-point grid with symbolic coefficients; plus every window of a 17-point FIXED rational grid (7 operators, orders 1, 2), the link on sampled window pairs of it and for order pairs (12,12), (13,11), and the same spline object in both slots',
                 thorough='orders 0..5, 68 operator pairs, grids of 2..5 points'),
     outside='operators and orders beyond the bound; floating-point rounding (C16)',
     assumptions=['grid points strictly increasing reals', 'T-typed divisor non-zero', 'exact real arithmetic (sym::Real), not IEEE'],
@@ -134,7 +134,7 @@ PROPS['C01'] = dict(
                     functions=['BSplineGenerator(knots)', 'BSplineGenerator(knots, grid)', 'BSplineGenerator::generateGrid', 'BSplineGenerator::generateBSplines<p>',
                                'BSplineGenerator::generateZerothOrderSplines', 'BSplineGenerator::applyRecursionRelation<k>', 'generateBSplines<p>(knots)', 'Grid::Grid', 'Grid::findElement',
                                'Position<1>::transform', 'ScalarMultiplication::transform', 'OperatorSum::transform', 'Spline::operator+=', 'Spline::operator=(lower order)', 'Spline::operator=='])],
-    bounds=dict(quick='orders p = 0..4; knot vectors of m = 2..p+4 knots; EVERY multiplicity pattern (all compositions of m with >= 2 parts: simple, interior and boundary repeats up to and beyond p+1); all knot values symbolic (any positive spacings, any offset); both construction routes and the free function; m < p+1 must throw, m = p+1 gives zero functions; plus orders 6..7 with m = p..p+2 knots, every multiplicity pattern, distinct knot values FIXED irregular rationals (x symbolic) - symbolic knots at these orders are beyond nlsat',
+    bounds=dict(quick='orders p = 0..4; knot vectors of m = 2..p+4 knots; EVERY multiplicity pattern (all compositions of m with >= 2 parts: simple, interior and boundary repeats up to and beyond p+1); all knot values symbolic (any positive spacings, any offset); both construction routes and the free function; m < p+1 must throw, m = p+1 gives zero functions; plus orders 6..7 with m = p..p+2 knots, every multiplicity pattern, distinct knot values FIXED irregular rationals (x symbolic) - symbolic knots at these orders are beyond nlsat; plus (sparse) orders 1, 2, 3, 5 with up to 18-20 knots and orders 8, 9, 11..16 on FIXED knot values (simple knots, one interior double knot, clamped ends)',
                 thorough='orders p = 0..5, m <= p+4 (up to 9 knots, 255 patterns), plus explicit C^{p-mu} derivative-continuity obligations at every interior knot; fixed-knot part: orders 6..10 (the examples use 10), m = p..p+3, all 14860 patterns'),
     outside='symbolic knot values for p >= 6; p > 10; knot vectors longer than p+4 (p+3 for p >= 6); floating-point rounding (C16)',
     assumptions=['knots non-decreasing with at least two distinct values (distinct values strictly increasing reals)', 'exact real arithmetic (sym::Real), not IEEE'],
@@ -148,7 +148,7 @@ PROPS['C15'] = dict(
                     defs=dict(quick=['-DMAXN=4', '-DMAXO=2', '-DLARGEN=17'], thorough=['-DMAXN=5', '-DMAXO=3', '-DLARGEN=24']),
                     functions=['Spline::isZero', 'Spline::checkOverlap', 'Spline::operator==', 'Spline::operator!=', 'Support::operator==', 'Support::hasSameGrid',
                                'Support::containsIntervals', 'Support::front', 'Support::back', 'Grid::operator== (pointer and element-wise paths)', 'std::vector<std::array<T,N>>::operator=='])],
-    bounds=dict(quick='orders 0..2; every window (isZero) and every ordered window pair (==, checkOverlap) on grids of 2..4 (overlap: 2..5) symbolic points; grids shared, equal-but-distinct, and independent symbolic second grid (sizes 2..3); which coefficients vanish/agree is decided by solver forking',
+    bounds=dict(quick='orders 0..2; every window (isZero) and every ordered window pair (==, checkOverlap) on grids of 2..4 (overlap: 2..5) symbolic points; grids shared, equal-but-distinct, and independent symbolic second grid (sizes 2..3); which coefficients vanish/agree is decided by solver forking; plus grids of 8..17 symbolic points: equality of splines on two independent symbolic grids (every position of the first differing point / coefficient), on equal-but-distinct grids, of empty windows; isZero on long coefficient vectors; checkOverlap on a 9-point grid',
                 thorough='orders 0..3, grids of 2..5 (6) points'),
     outside='NaN coefficients (reflexivity of == is stated over reals); orders/grids above the bound',
     assumptions=['grid points strictly increasing reals', 'coefficients real (no NaN)'],
@@ -163,7 +163,7 @@ PROPS['C08'] = dict(
                     functions=['Grid::operator==', 'Grid::operator!=', 'Support::hasSameGrid', 'Support::calcUnion', 'Support::calcIntersection', 'Spline::operator+', 'Spline::operator-',
                                'Spline::operator*(Spline)', 'Spline::operator+=', 'Spline::operator-=', 'linearCombination', 'BilinearForm::evaluate', 'ScalarProduct', 'integration::integrate<n>',
                                'SplineOperator::transform', 'operator*(Operator,Spline)', 'LinearForm::evaluate', 'BSplineGenerator(knots, grid)'])],
-    bounds=dict(quick='two grids of 2..4 points each, sizes independent, all points symbolic (every way of differing - one point moved anywhere, extra point at either end or inside, prefix/suffix, agreement on the region where the supports meet - is a model of a "different" path); 14 entry points; operand windows {empty, point-like, whole, left part, right part, interior interval}^2; order pairs (1,1), (2,0); linearCombination with the foreign spline at each of 3 positions',
+    bounds=dict(quick='two grids of 2..4 points each, sizes independent, all points symbolic (every way of differing - one point moved anywhere, extra point at either end or inside, prefix/suffix, agreement on the region where the supports meet - is a model of a "different" path); 14 entry points; operand windows {empty, point-like, whole, left part, right part, interior interval}^2; order pairs (1,1), (2,0); linearCombination with the foreign spline at each of 3 positions; plus two independent symbolic grids of 8..17 points each (equal sizes: the first differing point anywhere; unequal sizes 8/10, 9/12, 16/17 with windows beyond the shorter grid) for a slim set of 7 entry points (refusal <=> grids differ, error code)',
                 thorough='grids of 2..5 points, order pairs (1,1), (2,0), (0,0), (2,2), (1,2)'),
     outside='grids larger than the bound; for a bilinear form with a spline factor the refusal is demanded only when the integration domain has at least one interval (statement ambiguous otherwise)',
     stubs=['symt/stub/boost/math/quadrature/gauss.hpp: exact 1-point Gauss-Legendre rule (node 0, weight 2) in place of boost tables'],
@@ -181,7 +181,7 @@ PROPS['C12'] = dict(
                     defs=dict(quick=['-DMAXO=4', '-DMAXNODES=4', '-DFULLSEQ_MAXO=3'], thorough=['-DMAXO=5', '-DMAXNODES=5', '-DFULLSEQ_MAXO=4']),
                     functions=['interpolation::interpolate<T,order,Solver>', 'interpolation::internal::defaultBoundaries', 'internal::facultyRatio', 'Support::operator[]', 'Support::size',
                                'Support::back', 'Spline::Spline', 'Spline::operator()', 'Spline::findInterval'])],
-    bounds=dict(quick='orders 1..4; 2..4 abscissae, as the whole grid and as a window of a larger grid (padding 1+1 and 2+0); default boundaries and, for orders <=3, EVERY ordered sequence of order-1 (node, derivative 1..order) conditions with symbolic values (order 4: every multiset); abscissae, ordinates, boundary values and the solver output symbolic',
+    bounds=dict(quick='orders 1..4; 2..4 abscissae, as the whole grid and as a window of a larger grid (padding 1+1 and 2+0); default boundaries and, for orders <=3, EVERY ordered sequence of order-1 (node, derivative 1..order) conditions with symbolic values (order 4: every multiset); abscissae, ordinates, boundary values and the solver output symbolic; plus FIXED rational abscissae: 7..17 nodes for orders 1..4 (whole grid and windows starting at index 2 and 5), orders 5..8, 10, 12 with 2..5 nodes, default and two explicit boundary sequences each',
                 thorough='orders 1..5, 2..5 abscissae, every ordered sequence up to order 4'),
     outside='the bundled Eigen/Armadillo adapters and their backward error (floating point, dense QR) - second sentence of the statement; orders/node counts above the bound',
     stubs=['StubSolver (in C12_interp.cpp): M(i,j)/b(i) store terms; solve() returns fresh variables constrained only by M x = b (contract of an exact solver)'],
@@ -199,7 +199,7 @@ PROPS['C17'] = dict(
                     defs=dict(quick=['-DMAXQ=4', '-DMAXO=2', '-DMAXN=4'], thorough=['-DMAXQ=5', '-DMAXO=3', '-DMAXN=4']),
                     functions=['integration::integrate<n>', 'Support::calcIntersection', 'Support::intervalIndexFromAbsolute', 'Support::absoluteFromRelative', 'Support::at', 'Grid::at',
                                'internal::evaluateInterval', 'BilinearForm::evaluate (weight as X-polynomial operator)'])],
-    bounds=dict(quick='quadrature sizes n = 1..4, spline orders {0..2}^2, polynomial weights of degree 0..2 with symbolic coefficients, every (n, o1, o2, d) with 2n-1 >= o1+o2+d; every ordered window pair on grids of 2..4 symbolic points',
+    bounds=dict(quick='quadrature sizes n = 1..4, spline orders {0..2}^2, polynomial weights of degree 0..2 with symbolic coefficients, every (n, o1, o2, d) with 2n-1 >= o1+o2+d; every ordered window pair on grids of 2..4 symbolic points; plus sampled window pairs of a 17-point FIXED rational grid for (n,o1,o2,d) in {(2,1,1,1),(3,2,1,2),(2,0,3,0)} and (4,3,3,1), (4,5,2,0), (5,4,4,1), (5,6,3,0), (5,2,5,2) on 2..3-point grids',
                 thorough='n = 1..5, orders {0..3}^2'),
     outside='boost\'s rounded double node/weight tables and floating-point rounding ("up to rounding" is read as exact equality in exact arithmetic); n > 5; non-polynomial weights; sizes beyond the exactness bound (no claim is made there)',
     stubs=['symt/stub/boost/math/quadrature/gauss.hpp + symt/gauss_nodes.h: exact n-point Gauss-Legendre rule, nodes/weights as algebraic numbers (n=2: s^2=1/3; n=3: s^2=3/5; n=4,5: nested radicals), contract = exactness to degree 2n-1'],
@@ -215,7 +215,7 @@ PROPS['C11'] = dict(
                     functions=['Grid::Grid (vector, iterator, initializer_list, shared_ptr)', 'Grid::checkValidity', 'Grid::isSteadilyIncreasing', 'Support::Support', 'Support::checkValidity',
                                'Spline::Spline', 'Spline::checkValidity', 'BSplineGenerator(knots)', 'BSplineGenerator(knots, grid)', 'BSplineGenerator::generateGrid (std::unique)',
                                'BSplineGenerator::generateBSplines<p>', 'linearCombination (argument checks)', 'interpolation::interpolate (argument checks)'])],
-    bounds=dict(quick='grid/knot sequences of 0..5 symbolic elements (IEEE doubles incl. NaN, signed zeros, infinities at solver-chosen positions; and reals), all four Grid constructors; Grid<binary32> built from a sequence of binary64 values (the stored, rounded values decide); Support index pairs over {0..n+2} and the extremes of size_t on grids of 2..4 points; coefficient counts 0..n+1 for every window; generator orders 0,2,3 and supplied grids with symbolic points; (#coeffs,#splines) in {0..3}^2; interpolate sizes for every window and boundary derivative orders {0..order+2, SIZE_MAX} at either node in every slot, orders 1..4',
+    bounds=dict(quick='grid/knot sequences of 0..5 symbolic elements (IEEE doubles incl. NaN, signed zeros, infinities at solver-chosen positions; and reals), all four Grid constructors; Grid<binary32> built from a sequence of binary64 values (the stored, rounded values decide); Support index pairs over {0..n+2} and the extremes of size_t on grids of 2..4 points; coefficient counts 0..n+1 for every window; generator orders 0,2,3 and supplied grids with symbolic points; (#coeffs,#splines) in {0..3}^2; interpolate sizes for every window and boundary derivative orders {0..order+2, SIZE_MAX} at either node in every slot, orders 1..4; plus fully symbolic grid sequences of 6..17 elements (IEEE and real; one path per position of the first violation), sliding runs of 2 (3) symbolic IEEE elements at every position of fixed grids of 17 and 25 points (knot vectors of 13 and 17), Support index pairs/coefficient counts on a 17-point grid, (#coeffs,#splines) in {0..9}^2, a supplied grid that continues beyond the knots',
                 thorough='sequences of 0..6 elements, grids up to 5 points'),
     outside='sequences longer than the bound (the scan is a single stateless loop - stated, not proved); the full 64-bit index space of the Support constructor is covered by C13 (Engine B)',
     assumptions=['IEEE-754 binary64 comparison semantics for the F64 instantiation (z3 FPA theory)', 'exact reals for the Real instantiation'],
@@ -248,7 +248,7 @@ PROPS['C10'] = dict(
                     functions=['Spline constructors', 'Spline copy/move construction and assignment (incl. self-assignment, self-move, std::swap)', 'Spline::operator=(lower order)', 'Spline::setData',
                                'Spline::operator+=,-=,*=,/=', 'Spline::operator+,*', 'operator*(Operator,Spline)', 'linearCombination', 'Support constructors/copy/move/move-assignment',
                                'Support::createEmpty/createWholeGrid/calcUnion/calcIntersection', 'Grid copy construction/assignment', 'Spline::checkValidity/Support::checkValidity/Grid::checkValidity (BSPLINE_ADD_TEST_CHECKS)'])],
-    bounds=dict(quick='pool of 3 order-1 splines + a lower-order and a foreign-grid spline; every pair of windows (empty, point-like, all s<e<=n) on grids of 2..3 symbolic points; every sequence of 1 or 2 operations out of 18 (copy/move/self-move/self-copy assignment, +=, -=, *= by a symbolic scalar that may be zero, /=, lower-order assignment, results of + / operator application / linearCombination assigned, move-construct-and-destroy, throwing += on a different grid, throwing construction, reuse of moved-from objects, std::swap), followed by combining and reassigning every object; Support-level copies/moves/self-moves/algebra for every window pair on grids of 2..4 points',
+    bounds=dict(quick='pool of 3 order-1 splines + a lower-order and a foreign-grid spline; every pair of windows (empty, point-like, all s<e<=n) on grids of 2..3 symbolic points; every sequence of 1 or 2 operations out of 18 (copy/move/self-move/self-copy assignment, +=, -=, *= by a symbolic scalar that may be zero, /=, lower-order assignment, results of + / operator application / linearCombination assigned, move-construct-and-destroy, throwing += on a different grid, throwing construction, reuse of moved-from objects, std::swap), followed by combining and reassigning every object; Support-level copies/moves/self-moves/algebra for every window pair on grids of 2..4 points; plus all 18 operations alone and sampled two-step sequences from 36 sampled window pairs of a 17-point FIXED rational grid, and the Support life cycle on every window pair of a 12-point grid',
                 thorough='grids of 2..4 points for the spline pool, 2..5 for supports'),
     outside='sequences longer than 2 operations before the final reuse step (the step is checked from every valid shape, which is the inductive argument for longer histories); pools of other orders; the 64-bit index space of Support is covered by C13 (Engine B)',
     assumptions=['grid points strictly increasing reals', 'exact real arithmetic'],
@@ -272,7 +272,7 @@ PROPS['C19'] = dict(
     ],
     generated=[dict(mode='c06', ntu=4, template=dict(defs=dict(quick=_ARCH + ['-DMAXN=3', '-DMAXO=2', '-DFO=1'], thorough=_ARCH + ['-DMAXN=4', '-DMAXO=3', '-DFO=1']), functions=['BilinearForm<O1,O2>', 'compound/scalar operators'])),
                dict(mode='c07', ntu=4, template=dict(defs=dict(quick=_ARCH + ['-DMAXN=3', '-DMAXO=2', '-DFO=1'], thorough=_ARCH + ['-DMAXN=4', '-DMAXO=3', '-DFO=1']), functions=['LinearForm<O>']))],
-    bounds=dict(quick='the harnesses of C01 (p<=2, m<=p+3), C02, C03, C04, C06, C07, C08, C12, C15 at reduced bounds plus an explicit-instantiation unit, all built with -DSYMT_STRICT -DSYMT_POISON_DEFAULT: no abs/fabs, no numeric_limits specialisation, construction from integral types only (explicit), copy-only, default-constructed value = arbitrary number',
+    bounds=dict(quick='the harnesses of C01 (p<=2, m<=p+3), C02, C03, C04, C06, C07, C08, C12, C15 at reduced bounds plus an explicit-instantiation unit, all built with -DSYMT_STRICT -DSYMT_POISON_DEFAULT: no abs/fabs, no numeric_limits specialisation, construction from integral types only (explicit), copy-only, default-constructed value = arbitrary number; a moved-from scalar is an arbitrary number too (-DSYMT_POISON_MOVED)',
                 thorough='the same harnesses at the quick bounds of their own properties'),
     outside='scalar types with additional quirks (non-commutative multiplication, throwing operations); streaming is not offered by the archetype, so any use is a compile error; the bundled Eigen/Armadillo adapters (need a numeric type those libraries accept)',
     assumptions=['the archetype sym::Real (strict build) offers exactly the documented operations', 'exact real arithmetic'],
@@ -307,7 +307,7 @@ PROPS['C09'] = dict(
     generated=[dict(mode='c05', ntu=16, env=dict(quick={'C05_L2_QUICK': '48'}), template=dict(_SAN, defs=dict(quick=['-DMAXN=3', '-DMAXO=2', '-DFO=1'], thorough=['-DMAXN=4', '-DMAXO=2', '-DFO=1']), functions=['every operator transform incl. SplineOperator with every factor placement'])),
                dict(mode='c06', ntu=8, template=dict(_SAN, defs=dict(quick=['-DMAXN=3', '-DMAXO=2', '-DFO=1'], thorough=['-DMAXN=4', '-DMAXO=3', '-DFO=1']), functions=['BilinearForm::evaluate/evaluateInterval'])),
                dict(mode='c07', ntu=8, template=dict(_SAN, defs=dict(quick=['-DMAXN=3', '-DMAXO=2', '-DFO=1'], thorough=['-DMAXN=4', '-DMAXO=3', '-DFO=1']), functions=['LinearForm::evaluate/evaluateInterval']))],
-    bounds=dict(quick='layer 2+3: the harnesses of C01-C08, C10, C12, C14, C15, C17 at reduced bounds (grids <=3-4 points, orders <=2-3, every window placement, every solver-feasible value-dependent path) built with -D_GLIBCXX_ASSERTIONS -D_GLIBCXX_DEBUG -fsanitize=undefined (quick) plus -fsanitize=address (thorough); every scalar division checked for a reachable zero divisor. Layer 1 (Engine B): all 2^64 index values of the checked accessors and of the Support life-cycle, and byte-level bounds of every load/store of 14 Spline-level operations (evaluation, copy, operator application incl. SplineOperator, product, forms, generator) with symbolic windows on grids of 2..3 points',
+    bounds=dict(quick='layer 2+3: the harnesses of C01-C08, C10, C12, C14, C15, C17 at reduced bounds (grids <=3-4 points, orders <=2-3, every window placement, every solver-feasible value-dependent path) built with -D_GLIBCXX_ASSERTIONS -D_GLIBCXX_DEBUG -fsanitize=undefined (quick) plus -fsanitize=address (thorough); every scalar division checked for a reachable zero divisor. Layer 1 (Engine B): all 2^64 index values of the checked accessors and of the Support life-cycle, and byte-level bounds of every load/store of 14 Spline-level operations (evaluation, copy, operator application incl. SplineOperator, product, forms, generator) with symbolic windows on grids of 2..3 points; plus an object-lifetime harness under AddressSanitizer in BOTH tiers (by-value getters of temporaries, supports/splines/results/operators/forms that outlive what they were built from)',
                 thorough='the same harnesses one size larger'),
     outside='allocation failure, stack exhaustion, call sequences that violate documented preconditions (unchecked operator[] with out-of-range index), orders/grids above the bounds; uninitialised reads are only caught where they change a checked result (see C19 for default-constructed scalars)',
     assumptions=['grid points strictly increasing reals', 'exact real arithmetic for values (indices, sizes, iterator arithmetic are the real machine integers of the compiled code)'],
@@ -320,7 +320,7 @@ B_TRUST = ['clang 14 lowering at -O1 (the IR is what is verified; the native rep
 PROPS['C13'] = dict(
     engine='B', technique='symbolic execution of the LLVM IR clang emits for wrappers around the real Support<double>/Grid<double> members; indices, window bounds and grid size are 64-bit bit-vector variables; obligations against widened (non-wrapping) specifications; native ctypes replay',
     irsym=[dict(module='c13', params=dict(quick=dict(nmax_data=3, nmax_large=10), thorough=dict(nmax_data=4, nmax_large=13)))],
-    bounds=dict(quick='every public member of Support<double>: ALL 2^64 values of every index argument and of start/end of up to three supports (assumed: representation invariant), grid sizes 2..2^60-1 with abstract grid data wherever the function does not read grid points (any dereference would be reported); equality of supports on two distinct grid vectors and Grid::findElement/operator== with real element loops: grid sizes <= 3, points symbolic IEEE doubles (strictly increasing)',
+    bounds=dict(quick='every public member of Support<double>: ALL 2^64 values of every index argument and of start/end of up to three supports (assumed: representation invariant), grid sizes 2..2^60-1 with abstract grid data wherever the function does not read grid points (any dereference would be reported); equality of supports on two distinct grid vectors and Grid::findElement/operator== with real element loops: grid sizes <= 3, points symbolic IEEE doubles (strictly increasing); Grid::operator== additionally on two 10-point vectors with symbolic IEEE points (element loop beyond 8 points)',
                 thorough='grid sizes <= 4 where grid data is read'),
     outside='grids with more than 2^60-1 points (vector<double>::max_size()); more than 4 points where grid data is read; scalar types other than double (the index logic does not depend on T)',
     assumptions=['pre-state satisfies the class invariant ((start=0 and end=0) or start<end<=n, n>=2)', 'every grid is shared (use_count >= 2), so the last-owner release path is not taken', 'allocation does not fail'],
@@ -334,7 +334,7 @@ PROPS['C18'] = dict(
     irsym=[dict(module='c18', tsan_driver='tsan_driver.cpp', params=dict(quick=dict(nmax=3, gen_sizes=[2]), thorough=dict(nmax=4, gen_sizes=[2, 3])), select=dict(quick=_C18_QUICK, thorough=None)),
            dict(module='c13', checks=[2, 3], params=dict(quick=dict(nmax_data=3), thorough=dict(nmax_data=3)))],
     b_timeout_s=dict(quick=900, thorough=3000),
-    bounds=dict(quick='19 operations on Spline<double,k<=2> (evaluation on orders 1 and 2, isZero, front/back, copy construction + destruction, checkOverlap, ==, scalar multiple, operator+, operator*(Spline), X<1>/X<3>/Dx<1>/SplineOperator application (heap allocation, vector growth, memmove, all destructors), bilinear form, scalar product, linear form, generateBSplines<1> on a const generator over a 2-point grid) with windows of every operand and the grid size (2..3) as 64-bit symbolic values, grid points symbolic IEEE doubles, coefficients unconstrained; two-operand operations additionally with the operands on two distinct grid vectors (so Grid::operator== runs its element loop); Support union/intersection/equality as in C13',
+    bounds=dict(quick='19 operations on Spline<double,k<=2> (evaluation on orders 1 and 2, isZero, front/back, copy construction + destruction, checkOverlap, ==, scalar multiple, operator+, operator*(Spline), X<1>/X<3>/Dx<1>/SplineOperator application (heap allocation, vector growth, memmove, all destructors), bilinear form, scalar product, linear form, generateBSplines<1> on a const generator over a 2-point grid) with windows of every operand and the grid size (2..3) as 64-bit symbolic values, grid points symbolic IEEE doubles, coefficients unconstrained; two-operand operations additionally with the operands on two distinct grid vectors (so Grid::operator== runs its element loop); Support union/intersection/equality as in C13; plus isZero, LinearForm and spline equality on supports with 9..10 intervals (grid sizes and windows concrete, points and coefficients symbolic)',
                 thorough='grids of 2..4 points; generator over 2- and 3-point grids'),
     outside='interleavings are not enumerated (the non-interference theorem is in the trusted base); operations on non-const shared objects (not promised by the library); grids above 3 (4) points; generators with other knot patterns than simple knots with doubled ends; the last-owner release of a grid (use_count >= 2 assumed for shared grids)',
     assumptions=['operands satisfy their class invariants', 'every grid involved is shared (use_count >= 2)', 'atomic read-modify-write on the use count behaves atomically (hardware/compiler)', 'C++11 thread-safe initialisation of function-local statics', 'allocation does not fail; the allocator is thread-safe'],
